@@ -493,6 +493,40 @@ def cut_points(prog, f):
     return out
 
 
+def E_(*a):
+    from ..expr import E
+    return E(*a)
+
+
+def _iter_elements(e, depth=0):
+    """If e is (a pure unary function of) the element of an iteration over an array literal -
+    `next(into_iter([a, b, c])).Some.0`, `to_le_bytes(<that>)`, a cast of it - return
+    ([expr for a, expr for b, ...], the next() call); unary calls are re-applied as
+    E('apply', name, [arg], path) nodes."""
+    from ..expr import call_arg_exprs
+    if e is None or depth > 6:
+        return None
+    if e.k == "field" and e.b == "Some.0" and e.a.k == "call" and e.a.a.name == "next":
+        it = call_arg_exprs(e.a.a)[0]
+        hops = 0
+        while it is not None and it.k == "call" and it.a.name in ("into_iter", "iter", "copied", "cloned") and it.a.args and hops < 4:
+            it = call_arg_exprs(it.a)[0]
+            hops += 1
+        if it is not None and it.k == "agg" and it.a == "array" and it.c:
+            return list(it.c), e.a.a
+        return None
+    if e.k == "cast":
+        r = _iter_elements(e.a, depth + 1)
+        if r is not None:
+            return [E_("cast", y, e.b, e.c) for y in r[0]], r[1]
+        return None
+    if e.k == "call" and len(e.a.args) == 1:
+        r = _iter_elements(call_arg_exprs(e.a)[0], depth + 1)
+        if r is not None:
+            return [E_("apply", e.a.name, [y], e.a.path) for y in r[0]], r[1]
+    return None
+
+
 def absorb_sequence(f, calls, argidx=1):
     """Ordered list of (root_local, call, anchor_block) of what a sequence of absorbing calls (hash/MAC updates)
     takes in: calls are ordered by dominance; a call inside `for part in [a, b, c] { h.update(part) }`
@@ -507,29 +541,34 @@ def absorb_sequence(f, calls, argidx=1):
     for c in cs:
         e = call_arg_exprs(c)[argidx] if len(c.args) > argidx else None
         expanded = None
-        x = e
-        while x is not None and x.k == "call" and x.a.name in ("as_ref", "as_slice", "deref", "borrow") and x.a.args:
-            x = call_arg_exprs(x.a)[0]
-        if x is not None and x.k == "field" and x.b == "Some.0" and x.a.k == "call" and x.a.a.name == "next":
-            it = call_arg_exprs(x.a.a)[0]
-            hops = 0
-            while it is not None and it.k == "call" and it.a.name in ("into_iter", "iter", "copied", "cloned") and it.a.args and hops < 4:
-                it = call_arg_exprs(it.a)[0]
-                hops += 1
-            if it is not None and it.k == "agg" and it.a == "array" and it.c:
-                expanded = []
-                for o in it.c:
-                    y = o
-                    while y is not None and y.k in ("cast",):
-                        y = y.a
-                    while y is not None and y.k == "call" and y.a.name in ("as_ref", "as_slice", "deref", "borrow") and y.a.args:
-                        y = call_arg_exprs(y.a)[0]
-                    expanded.append(y.a if y is not None and y.k == "local" else None)
+        hit = _iter_elements(e)
+        if hit is not None:
+            elems, nxt = hit
+            expanded = []
+            for y in elems:
+                z = y
+                for _ in range(6):
+                    if z is not None and z.k == "cast":
+                        z = z.a
+                    elif z is not None and z.k == "call" and z.a.name in ("as_ref", "as_slice", "deref", "borrow") and z.a.args:
+                        z = call_arg_exprs(z.a)[0]
+                    else:
+                        break
+                expanded.append((z.a if z is not None and z.k == "local" else None, y))
+            x = E_("field", E_("call", nxt), "Some.0")
         if expanded is not None:
             # anchor = the block of the iterator's next(): it runs once per element plus once at the end,
             # so it (not the loop body) is what dominates the code after the loop
-            out += [(r, c, x.a.a.bb) for r in expanded]
+            out += [Absorbed((r, c, x.a.a.bb), ex) for r, ex in expanded]
         else:
             ls = list(operand_locals(c.args[argidx])) if len(c.args) > argidx else []
-            out.append((view_info(f, ls[0])[0] if ls else None, c, c.bb))
+            out.append(Absorbed((view_info(f, ls[0])[0] if ls else None, c, c.bb), e))
     return out
+
+
+class Absorbed(tuple):
+    """(root_local, call, anchor_block) with the operand's expression in `.expr`"""
+    def __new__(cls, t, expr):
+        o = super().__new__(cls, t)
+        o.expr = expr
+        return o
